@@ -35,7 +35,7 @@ def bits(f):
 def constants(rng, thorough):
     out = []
     fl = [0.0, 1.0, 0.5, 0.1, 1e16, 1e15, 1e-5, 1e-4, 123456789012345678.0, 5e-324, 1.7976931348623157e308, 0.9999999999999999, 1.0000000000000002, 1e22, 1e23, 2.5e-324, 1e100, 1e-100, 3.14159]
-    for _ in range(3000 if thorough else 400):
+    for _ in range(3000 if thorough else 1500):
         f = struct.unpack("<d", struct.pack("<Q", rng.getrandbits(64)))[0]
         if f == f and abs(f) != float("inf"):
             fl.append(abs(f))
@@ -47,7 +47,7 @@ def constants(rng, thorough):
     for k in (0, 1, 7, 31, 32, 63, 64, 100, 1000):
         out += [str(2 ** k), str(2 ** k - 1), hex(2 ** k), "-" + str(2 ** k)]
     alphabet = ["'", '"', "\\", "\n", "\t", "\r", "\x00", "\x7f", " ", "a", "é", "\xa0", "\xad", "​", " ", "", "𝄞", "😀", "{", "}", "%"]
-    for _ in range(2000 if thorough else 300):
+    for _ in range(2000 if thorough else 1000):
         s = "".join(rng.choice(alphabet) for _ in range(rng.randint(0, 8)))
         out.append(repr(s))
         try:
@@ -189,8 +189,8 @@ def run(res):
                 ops[pos] = child
                 items.append(("pair-bare:%s/%d/%d" % (pname, pos, ci), tpl.format(*ops)))
     items += [("const:%d" % i, c) for i, c in enumerate(constants(rng, thorough))]
-    items += [("fstr:%d" % i, c) for i, c in enumerate(fstrings(rng, 3000 if thorough else 400))]
-    items += tw.generated_expressions(res.seed, 30000 if thorough else 3000)
+    items += [("fstr:%d" % i, c) for i, c in enumerate(fstrings(rng, 3000 if thorough else 1500))]
+    items += tw.generated_expressions(res.seed, 30000 if thorough else 10000)
     items += corpus_expressions(res.seed, 1500 if thorough else 100, 60 if thorough else 40)
     parts = core.pmap(_work, tw.batches(items, 300), init=tw.init_state, initargs=({VARIANT: bins[VARIANT]},))
     for p in parts:
